@@ -195,7 +195,7 @@ func selfTest(e *Env) {
 	}
 	type res struct{ id, status, detail string }
 	results := make([]res, len(ms))
-	sem := make(chan struct{}, 4)
+	sem := make(chan struct{}, 8)
 	var wg sync.WaitGroup
 	for i, m := range ms {
 		wg.Add(1)
